@@ -66,6 +66,8 @@ def free_callers(ctx):
 def run(ctx, pid="C10", traps=TRAPS, want=WANT, cfgs=("Client_c10q.cfg", "Client_c10.cfg"), with_close=0, extra=None):
     if pid == "C10":
         free_callers(ctx)
+        from checks import c11
+        c11.exchange_faults(ctx, only=("wrong-response",))      # the fault plans of ExchangeFaults.tla: no exchange returns a foreign response
     ctx.tlc("ClientConn", cfgs[0] if ctx.quick else cfgs[1], coverage=not ctx.quick)
     seeds = [ctx.seed, ctx.seed + 100] if ctx.quick else [ctx.seed * 10 + i for i in range(8)]
     scheds, missing = sc.trap_schedules(ctx, "Client_trap.cfg", traps, seeds, mode="sim", module="MCClient", compiler=cc.schedule_from_states, depth=120)
